@@ -185,7 +185,8 @@ class PipelineSim(WorldBase):
                 b["evict-on"] = g.choice(["root"] + outer)
             le = g.choice([1, 1, 2, 3])
             evs.append(["call", {"fn": fn, "bindings": [b], "tensors": [which], "line_elems": le,
-                                 "cap_lines": g.choice([0, 1, 2, 3, 5, 10 ** 4]) if fn == "cache" else 10 ** 4, "id": "c0"}])
+                                 "cap_lines": g.choice([0, 1, 2, 3, 5, 10 ** 4]) if fn == "cache" else 10 ** 4, "id": "c0",
+                                 "cap_frac": g.choice([0, 0, 1, 3]) if fn == "cache" else 0}])
             return evs
         if kind in ("buffet", "cache"):
             nr = g.randint(1, 3)
@@ -201,8 +202,18 @@ class PipelineSim(WorldBase):
                 shape = {r: g.randint(2, 6) if r == order[-1] else g.randint(1, 4 if kind == "cache" else 3)
                          for r in order}
                 fmt = g.choice(["U", "C"])
+                upper = None
+                if kind == "buffet" and len(tr) >= 2 and g.random() < 0.5:
+                    upper = tr[0]
+                pb = {r: 32 for r in tr}
+                if upper is not None:
+                    pb[upper] = g.choice([32, 64])
+                    pb[order[-1]] = g.choice([32, 32, 64])
+                    if 64 in pb.values() and line_elems % 2:
+                        line_elems += 1
                 spec = self._gen_trace(g, name, order, tr, shape, fmt, with_write=(kind == "buffet" and g.random() < 0.4)
-                                       or (kind == "cache" and g.random() < 0.15), epl=line_elems)
+                                       or (kind == "cache" and g.random() < 0.15), epl=line_elems, upper=upper)
+                spec["pbits"] = pb
                 evs.append(["trace", spec])
                 tens.append(spec)
             bindings = []
@@ -211,6 +222,13 @@ class PipelineSim(WorldBase):
                 if kind == "buffet":
                     b["evict-on"] = g.choice(["root"] + order[:-1]) if len(order) > 1 else "root"
                 bindings.append(b)
+                if spec.get("upper"):
+                    ub = {"tensor": spec["tensor"], "rank": spec["upper"]["rank"], "type": "payload", "evict-on": "root"}
+                    # the caller may list bindings in any order (inner rank first, too)
+                    if g.random() < 0.6:
+                        bindings.insert(len(bindings) - 1, ub)
+                    else:
+                        bindings.append(ub)
             nlines = max(1, max(len({(tuple(r[len(order):2 * len(order) - 1]), r[-1] // line_elems) for r in s["rows"]})
                                     for s in tens))
             cap_lines = g.choice([0, 1, 1, 2, 2, 3, nlines // 2, nlines - 1, nlines - 1, nlines, nlines + 1, 10 ** 4]) \
@@ -219,16 +237,18 @@ class PipelineSim(WorldBase):
             if g.random() < 0.3:
                 evs.append(["stale", {"names": [s["tensor"] for s in tens], "rank": order[-1]}])
             evs.append(["call", {"fn": kind, "bindings": bindings, "tensors": [s["tensor"] for s in tens],
-                                 "line_elems": line_elems, "cap_lines": cap_lines, "id": "c0"}])
+                                 "line_elems": line_elems, "cap_lines": cap_lines, "id": "c0",
+                                 "cap_frac": g.choice([0, 0, 1, 2, 3]) if kind == "cache" else 0}])
             if kind == "cache":
                 # capacity sweep for monotonicity
                 for c in sorted({0, 1, 2, 3, nlines, nlines + 1}):
                     evs.append(["call", {"fn": kind, "bindings": bindings, "tensors": [s["tensor"] for s in tens],
-                                         "line_elems": line_elems, "cap_lines": c, "id": f"cap{c}", "sweep": True}])
+                                         "line_elems": line_elems, "cap_lines": c, "id": f"cap{c}", "sweep": True,
+                                         "cap_frac": g.choice([0, 1, 2, 3])}])
         elif kind == "filter":
             nr = g.randint(1, 3)
             order = RANKS[3 - nr:]
-            shape = {r: g.randint(1, 4) for r in order}
+            shape = {r: g.choice([1, 2, 3, 4, 11, 13]) for r in order}
             a = self._gen_trace(g, "I", order, order, shape, "C", iter_like=True)
             extra = g.random() < 0.5 and nr < 3
             b = self._gen_trace(g, "F", order, order, shape, "C", iter_like=True, density=g.choice([0.3, 0.6, 1.0]))
@@ -242,13 +262,15 @@ class PipelineSim(WorldBase):
                                            "id": "c0"}]]
         return evs
 
-    def _gen_trace(self, g, name, order, tranks, shape, fmt, with_write=False, iter_like=False, density=None, epl=12):
+    def _gen_trace(self, g, name, order, tranks, shape, fmt, with_write=False, iter_like=False, density=None, epl=12,
+                   upper=None):
         """rows of a well-formed trace of accesses to tensor `name` at the last loop rank"""
         nr = len(order)
         last = order[-1]
         S = shape[last]
         fibers = {}
         rows, wrows = [], []
+        urows = []
 
         def fiber_coords(key):
             if key not in fibers:
@@ -287,12 +309,18 @@ class PipelineSim(WorldBase):
             cs = sorted(g.sample(range(n), g.randint(0, n))) if not iter_like else \
                 [c for c in range(n) if g.random() < 0.8]
             for p, c in enumerate(cs):
+                if upper is not None and r == upper:
+                    # the access to the tensor's upper rank made by this loop (position == coordinate)
+                    urows.append(list(stamp) + [p] + list(coords) + [c] + [c])
                 rec(d + 1, stamp + [p], coords + [c])
 
         rec(0, [], [])
         wrows.sort(key=lambda r: tuple(r[:nr]))
-        return {"tensor": name, "order": order, "tranks": tranks, "shape": [shape[r] for r in tranks],
+        spec = {"tensor": name, "order": order, "tranks": tranks, "shape": [shape[r] for r in tranks],
                 "fmt": fmt, "rows": rows, "wrows": wrows if with_write else None}
+        if upper is not None:
+            spec["upper"] = {"rank": upper, "nr": order.index(upper) + 1, "rows": urows}
+        return spec
 
     # ------------------------------------------------------------------ execution
     def execute(self, ev):
@@ -324,6 +352,13 @@ class PipelineSim(WorldBase):
             with open(self.path(spec["tensor"], side), "w") as f:
                 f.write(head)
                 for r in rows:
+                    f.write(",".join(str(x) for x in r) + "\n")
+        if spec.get("upper"):
+            u = spec["upper"]
+            uo = order[:u["nr"]]
+            with open(self.path(spec["tensor"] + "." + u["rank"], "read"), "w") as f:
+                f.write(",".join([r + "_pos" for r in uo] + list(uo) + ["fiber_pos"]) + "\n")
+                for r in u["rows"]:
                     f.write(",".join(str(x) for x in r) + "\n")
         self.traces[spec["tensor"]] = spec
         return {"rows": len(spec["rows"]), "wrows": len(spec["wrows"] or [])}
@@ -407,7 +442,7 @@ class PipelineSim(WorldBase):
             t = Tensor(rank_ids=list(spec["tranks"]), shape=list(spec["shape"]))
             fs = {}
             for r in spec["tranks"]:
-                fs[r] = {"format": spec["fmt"], "pbits": 32, "cbits": 32}
+                fs[r] = {"format": spec["fmt"], "pbits": spec.get("pbits", {}).get(r, 32), "cbits": 32}
             fmts[name] = Format(t, fs)
         return fmts
 
@@ -433,11 +468,16 @@ class PipelineSim(WorldBase):
                     trace_fns[(name, rank, "payload", "read")] = self.path(name, "read")
                     if spec.get("wrows") is not None:
                         trace_fns[(name, rank, "payload", "write")] = self.path(name, "write")
+                    if spec.get("upper") and any(b["rank"] == spec["upper"]["rank"] for b in a["bindings"]):
+                        ur = spec["upper"]["rank"]
+                        trace_fns[(name, ur, "payload", "read")] = self.path(name + "." + ur, "read")
                 bindings = [dict(b) for b in a["bindings"]]
                 if fn == "buffet":
                     res = Traffic.buffetTraffic(bindings, fmts, trace_fns, 10 ** 9, line)
                 else:
-                    res = Traffic.cacheTraffic(bindings, fmts, trace_fns, a["cap_lines"] * line, line)
+                    # a capacity need not be a whole number of lines: the part of a line does not hold one
+                    res = Traffic.cacheTraffic(bindings, fmts, trace_fns,
+                                               a["cap_lines"] * line + (a.get("cap_frac", 0) * line) // 4, line)
             elif fn == "filter":
                 if a["input"] not in self.traces or a["filter"] not in self.traces:
                     raise Skip("traces")
@@ -522,7 +562,7 @@ class PipelineSim(WorldBase):
         if self.fs.open_handles:
             self.V("C17", "C17.handles-closed", fn, f"{len(self.fs.open_handles)} file handles still open after the call")
         # same answer as the undisturbed first call (restart after an aborted call)
-        key = (cid, repr(sorted(a.get("bindings", []), key=repr)), a.get("cap_lines"), a.get("line_elems"))
+        key = (cid, repr(sorted(a.get("bindings", []), key=repr)), a.get("cap_lines"), a.get("cap_frac"), a.get("line_elems"))
         if fn in ("buffet", "cache"):
             if key in self.clean:
                 if self.clean[key] != res:
@@ -545,57 +585,76 @@ class PipelineSim(WorldBase):
     def _judge_policy(self, a, res):
         fn = a["fn"]
         traffic, overflows = res
-        epl = a["line_elems"]
-        line = 32 * epl
+        line = 32 * a["line_elems"]
+        want_tot = {}
+        detail = {}
         for b in a["bindings"]:
             name = b["tensor"]
             spec = self.traces[name]
             order = spec["order"]
-            nr = len(order)
-            R = spec["rows"]
-            W = spec.get("wrows")
-            mask = [r in spec["tranks"] for r in order]
+            pb = spec.get("pbits", {}).get(b["rank"], 32)
+            epl = line // pb
+            up = spec.get("upper")
+            if up and b["rank"] == up["rank"]:
+                nr = up["nr"]
+                R, W = up["rows"], None
+                shape_last = None
+                self.probe("binding_on_upper_rank")
+            else:
+                nr = len(order)
+                R, W = spec["rows"], spec.get("wrows")
+                shape_last = spec["shape"][-1]
+            mask = [r in spec["tranks"] for r in order[:nr]]
             comb = combine_ref(R, W or [], nr)
-            got_r = traffic.get(name, {}).get("read", 0)
-            got_w = traffic.get(name, {}).get("write", 0) if W is not None else 0
             lines = {(tuple(c for c, m in zip(r[nr:2 * nr - 1], mask[:-1]) if m), r[2 * nr] // epl) for r, _ in comb}
             nacc = len(comb)
             if fn == "buffet":
                 ev = b.get("evict-on", "root")
                 wlen = 0 if ev == "root" else order.index(ev) + 1
-                pin = spec["shape"][-1] if (W is not None and ev != b["rank"]) else None
-                want = buffet_ref(comb, nr, mask, epl, wlen, line, pin)
-                if (got_r, got_w) != want:
-                    self.V("C17", "C17.buffet-policy", fn,
-                           f"tensor {name} evict-on {ev} line {epl} elems: charged read/write {(got_r, got_w)}, "
-                           f"the window rule gives {want} ({len(R)} reads, {len(W or [])} writes)")
-                if W is not None and any(r[2 * nr] >= spec["shape"][-1] for r in W):
+                pin = shape_last if (W is not None and ev != b["rank"]) else None
+                wr, ww = buffet_ref(comb, nr, mask, epl, wlen, line, pin)
+                t = want_tot.setdefault(name, [0, 0])
+                t[0] += wr
+                t[1] += ww
+                detail.setdefault(name, []).append(f"{b['rank']}: evict-on {ev}, {epl} elems/line, {len(R)} reads, {len(W or [])} writes")
+                if W is not None and any(r[2 * nr] >= shape_last for r in W):
                     self.probe("staging_write_rows_seen")
                 if wlen:
                     self.probe("buffet_evict_on_outer_rank")
-            else:
-                seq = [(tuple(c for c, m in zip(r[nr:2 * nr - 1], mask[:-1]) if m), r[2 * nr] // epl) for r, _ in comb]
-                if W is None and len(a["bindings"]) == 1:
-                    want = belady_fills(seq, a["cap_lines"]) * line
-                    if got_r != want:
-                        self.V("C17", "C17.cache-optimal", fn,
-                               f"tensor {name} capacity {a['cap_lines']} lines of {epl}: charged {got_r} bits, optimal "
-                               f"replacement with bypass incurs {want} ({len(seq)} accesses, {len(lines)} lines)")
-                    if a["cap_lines"] and want < nacc * line and want > len(lines) * line:
-                        self.probe("cache_evictions_needed")
-                # bounds that hold in every configuration
-                reads_first = len(lines)
-                if W is None:
-                    if not (len(lines) * line <= got_r <= nacc * line) and nacc:
-                        self.V("C17", "C17.cache-bounds", fn,
-                               f"tensor {name}: {got_r} bits for {len(lines)} distinct lines and {nacc} accesses")
-                    if a.get("sweep"):
-                        prev = self.clean.get(("sweepcap", name))
-                        if prev is not None and prev[0] < a["cap_lines"] and got_r > prev[1]:
-                            self.V("C17", "C17.cache-monotone", fn,
-                                   f"tensor {name}: traffic rose from {prev[1]} to {got_r} when capacity grew from "
-                                   f"{prev[0]} to {a['cap_lines']} lines")
-                        self.clean[("sweepcap", name)] = (a["cap_lines"], got_r)
+                continue
+            got_r = traffic.get(name, {}).get("read", 0)
+            seq = [(tuple(c for c, m in zip(r[nr:2 * nr - 1], mask[:-1]) if m), r[2 * nr] // epl) for r, _ in comb]
+            if W is None and len(a["bindings"]) == 1:
+                want = belady_fills(seq, a["cap_lines"]) * line
+                if got_r != want:
+                    self.V("C17", "C17.cache-optimal", fn,
+                           f"tensor {name} capacity {a['cap_lines']} lines (+{a.get('cap_frac', 0)}/4 line) of {epl} elems: "
+                           f"charged {got_r} bits, optimal replacement with bypass incurs {want} "
+                           f"({len(seq)} accesses, {len(lines)} lines)")
+                if a["cap_lines"] and want < nacc * line and want > len(lines) * line:
+                    self.probe("cache_evictions_needed")
+                if a.get("cap_frac"):
+                    self.probe("cache_fractional_capacity")
+            # bounds that hold in every configuration
+            if W is None:
+                if not (len(lines) * line <= got_r <= nacc * line) and nacc:
+                    self.V("C17", "C17.cache-bounds", fn,
+                           f"tensor {name}: {got_r} bits for {len(lines)} distinct lines and {nacc} accesses")
+                if a.get("sweep"):
+                    cap = a["cap_lines"] * 4 + a.get("cap_frac", 0)
+                    prev = self.clean.get(("sweepcap", name))
+                    if prev is not None and prev[0] < cap and got_r > prev[1]:
+                        self.V("C17", "C17.cache-monotone", fn,
+                               f"tensor {name}: traffic rose from {prev[1]} to {got_r} when capacity grew from "
+                               f"{prev[0] / 4} to {cap / 4} lines")
+                    self.clean[("sweepcap", name)] = (cap, got_r)
+        for name, (wr, ww) in want_tot.items():
+            got_r = traffic.get(name, {}).get("read", 0)
+            got_w = traffic.get(name, {}).get("write", 0)
+            if (got_r, got_w) != (wr, ww):
+                self.V("C17", "C17.buffet-policy", fn,
+                       f"tensor {name}: charged read/write {(got_r, got_w)}, the window rule gives {(wr, ww)} "
+                       f"(bindings as listed by the caller: {detail[name]})")
 
     def _judge_filter(self, a, text):
         if text is None:
